@@ -38,8 +38,84 @@ type CcBad struct {
 	X map[string]*[]int32 `frugal:"3,default,map<string:list<i32>>"`
 }
 
+// CcM: containers whose steady-state encode/decode goes through per-type helpers (map iteration scratch, temp-variable
+// pools, batched element allocation).
+type CcM struct {
+	M map[int32]string `frugal:"1,default,map<i32:string>"`
+	L []*CcLeaf        `frugal:"2,default,list<CcLeaf>"`
+	V map[int32]CcIn   `frugal:"3,default,map<i32:CcIn>"`
+	D []*CcDf          `frugal:"4,default,list<CcDf>"`
+}
+
+// CcDf declares defaults: the decoder initialises every nested CcDf it creates before reading its fields.
+type CcDf struct {
+	A int32  `frugal:"1,optional,i32"`
+	B string `frugal:"2,optional,string"`
+	C int16  `frugal:"3,default,i16"`
+}
+
+func (p *CcDf) InitDefault() {
+	p.A = 41
+	p.B = "dflt"
+}
+
 func VerifSetupConc() {
 	EncodedSize(&CcLeaf{})
+	EncodedSize(&CcM{})
+}
+
+func ccEncM(m *CcM) []byte {
+	b := append(ccHdr(nil, 13, 1), 8, 11)
+	b = ccI32(b, int32(len(m.M)))
+	for k, v := range m.M { // at most one entry in the harness: order is immaterial
+		b = ccI32(ccI32(b, k), int32(len(v)))
+		b = append(b, v...)
+	}
+	b = append(ccHdr(b, 15, 2), 12)
+	b = ccI32(b, int32(len(m.L)))
+	for _, l := range m.L {
+		b = append(b, ccEncLeaf(l)...)
+	}
+	b = append(ccHdr(b, 13, 3), 8, 12)
+	b = ccI32(b, int32(len(m.V)))
+	for k, v := range m.V {
+		b = ccI32(b, k)
+		b = append(ccHdr(b, 6, 1), byte(uint16(v.V)>>8), byte(v.V), 0)
+	}
+	// D: every element carries only C (A and B are omitted on the wire: the receiver keeps the declared defaults)
+	b = append(ccHdr(b, 15, 4), 12)
+	b = ccI32(b, int32(len(m.D)))
+	for _, d := range m.D {
+		b = append(ccHdr(b, 6, 3), byte(uint16(d.C)>>8), byte(d.C), 0)
+	}
+	return append(b, 0)
+}
+
+func ccEqM(x, y *CcM) bool {
+	if len(x.M) != len(y.M) || len(x.L) != len(y.L) || len(x.V) != len(y.V) || len(x.D) != len(y.D) {
+		return false
+	}
+	for i := range y.D {
+		if x.D[i] == nil || *x.D[i] != *y.D[i] {
+			return false
+		}
+	}
+	for k, v := range y.M {
+		if w, ok := x.M[k]; !ok || w != v {
+			return false
+		}
+	}
+	for i := range y.L {
+		if x.L[i] == nil || x.L[i].X != y.L[i].X || x.L[i].S != y.L[i].S {
+			return false
+		}
+	}
+	for k, v := range y.V {
+		if w, ok := x.V[k]; !ok || w != v {
+			return false
+		}
+	}
+	return true
 }
 
 func ccI32(b []byte, v int32) []byte {
@@ -160,6 +236,7 @@ func VerifConcurrent() {
 		_, badDecErr = DecodeObject([]byte{0}, &CcBad{})
 	}
 	useB, useL, useIn, useBad := false, false, false, false
+	return8 := false
 	switch mode {
 	case 0: // two first uses of mutually nested types
 		useB = true
@@ -188,9 +265,38 @@ func VerifConcurrent() {
 	case 7:
 		useIn, useBad = true, true
 		vrt.RunConcurrently(fbad, fin, fa)
+	case 8, 9: // steady state only: two (8) / three (9) goroutines on the SAME registered types at once
+		l2 := &CcLeaf{X: n + 5, S: "other"}
+		wl2 := ccEncLeaf(l2)
+		var rl2 ccResult
+		var ol2 CcLeaf
+		m1 := &CcM{M: map[int32]string{n: "one"}, L: []*CcLeaf{{X: n, S: "a"}}, V: map[int32]CcIn{7: {V: int16(m)}}, D: []*CcDf{{A: 41, B: "dflt", C: int16(n)}, {A: 41, B: "dflt", C: 2}}}
+		m2 := &CcM{M: map[int32]string{n + 1: "two!"}, L: []*CcLeaf{{X: 9, S: ""}, {X: n, S: "bb"}}, V: map[int32]CcIn{n: {V: 3}}, D: []*CcDf{{A: 41, B: "dflt", C: 5}}}
+		wm1, wm2 := ccEncM(m1), ccEncM(m2)
+		var rm1, rm2 ccResult
+		var om1, om2 CcM
+		f1 := func() { ccCall(&rm1, m1, len(wm1), &om1); ccCall(&rl, l, len(wl), &ol) }
+		f2 := func() { ccCall(&rl2, l2, len(wl2), &ol2); ccCall(&rm2, m2, len(wm2), &om2) }
+		if mode == 8 {
+			vrt.RunConcurrently(f1, f2)
+		} else {
+			vrt.RunConcurrently(f1, f2, fa)
+		}
+		useL = true
+		ccCheck(&rl2, wl2, "Leaf'")
+		vrt.Check(ol2.X == l2.X && ol2.S == l2.S, "C08 concurrent DecodeObject yields the sequential value (Leaf')")
+		ccCheck(&rm1, wm1, "M1")
+		vrt.Check(ccEqM(&om1, m1), "C08 concurrent DecodeObject yields the sequential value (M1)")
+		ccCheck(&rm2, wm2, "M2")
+		vrt.Check(ccEqM(&om2, m2), "C08 concurrent DecodeObject yields the sequential value (M2)")
+		if mode == 8 {
+			return8 = true
+		}
 	}
-	ccCheck(&ra, wa, "A")
-	vrt.Check(ccEqA(&oa, a), "C08 concurrent DecodeObject yields the sequential value (A)")
+	if !return8 {
+		ccCheck(&ra, wa, "A")
+		vrt.Check(ccEqA(&oa, a), "C08 concurrent DecodeObject yields the sequential value (A)")
+	}
 	if useB {
 		ccCheck(&rb, wb, "B")
 		vrt.Check(ccEqB(&ob, b), "C08 concurrent DecodeObject yields the sequential value (B)")
